@@ -12,8 +12,11 @@
   shown necessary, and the code's behaviour there is pinned by the correspondence run.  Awaited futures succeed
   (assumption).  The state has one field per attribute of `_AsyncGenerator` plus the position of the underlying
   Python generator; the futures handed to the caller by `next()` are kept in `futs` so that a history of
-  caller operations (next / compute a future / take_first / list_of_generator / compute a future while a sibling
-  task advances the generator) can be replayed.
+  caller operations (next / send(x) with x not None / compute a future / take_first / list_of_generator / compute a
+  future while a sibling task advances the generator) can be replayed.  `send(x)`: CPython rejects a non-None value
+  for a generator that has not started (TypeError, the body does not move, `is_stopped` stays False - `sendVal`).
+  Re-entrant advances attempted by code the body calls are not part of the state machine; their expectation is the
+  closed form at the end of this file (`reenterExpected`), evaluated by the driver - no theorem speaks about it.
 -/
 namespace AsynqModel.Generator
 
@@ -56,6 +59,8 @@ inductive LastRef where
 
 inductive Exc where
   | stopIteration | runtimeError | other
+  | typeError     -- CPython: "can't send non-None value to a just-started generator" (the body has not moved)
+  | valueError    -- CPython: "generator already executing" (a re-entrant advance; the body has not moved)
   deriving Repr, DecidableEq, Inhabited
 
 inductive Res where
@@ -75,6 +80,8 @@ inductive Op where
   | compute (k : Nat)   -- .value() of the k-th future the caller holds
   | take (n : Nat)      -- take_first(gen, n)
   | list                -- list_of_generator(gen)
+  | send                -- `gen.send.asynq(x)` for an object `x` that is not None (the rarely used sibling of next());
+                        -- the returned future is kept by the caller like the one of `next`
   | par (k : Nat) (a : Adv)   -- two consumers: `yield held[k], sibling.asynq()` where the sibling advances the
                               -- generator by `a` - it runs when the k-th future has run as far as it can without
                               -- a batch flush (started, parked, not computed - or already computed)
@@ -88,6 +95,7 @@ def Adv.name : Adv → String
 
 def Op.name : Op → String
   | .next => "next" | .compute _ => "compute" | .take 0 => "take0" | .take _ => "take" | .list => "list"
+  | .send => "send"
   | .par _ a => "par-" ++ a.name
 
 structure St where
@@ -217,6 +225,22 @@ def stepBasic (s : St) : Op → St × Res
   | .take n => takeFirst s n
   | .list => listOf s
   | .par _ _ => (s, .raised .other)   -- not a basic operation (see `par`)
+  | .send => (s, .raised .other)      -- not a basic operation (see `sendVal`)
+
+/-- the underlying Python generator has not been started (and nothing keeps `send` from reaching it): CPython refuses
+    a non-None value there -/
+def St.fresh (s : St) : Bool := !s.blocked && !s.stopped && s.pulled == 0
+
+/-- `send(x)` with `x` not None (generator.py:131-152, the same function as `next` = `send(None)`): the guard and the
+    exhaustion test come first; then `self.generator.send(x)` (generator.py:170) - for a generator that has not
+    started CPython raises TypeError WITHOUT running the body; `except StopIteration` in `_get_one_value` does not
+    match, so `is_stopped` stays False and nothing has moved.  A started generator that `send` may advance is
+    suspended at a `yield Value(...)` whose result the body ignores: from there on `send(x)` is `send(None)`. -/
+def sendVal (s : St) : St × Res :=
+  if s.blocked then (s, .raised .runtimeError)            -- 136-140
+  else if s.stopped then (s, .raised .stopIteration)      -- 141-142
+  else if s.pulled == 0 then (s, .raised .typeError)      -- 147 -> 170: TypeError, not StopIteration
+  else next s
 
 /-- `first, second = yield held[k], sibling.asynq()`: the scheduler runs the k-th future first, as far as it gets
     without flushing a batch; then the sibling advances the generator (`Bool` = was the k-th future computed at that
@@ -255,6 +279,9 @@ def observe (s : St) (op : Op) : St × Obs :=
   | .par k a =>
     let (s1, r, sib) := par s k a
     (s1, { op := .par k a, res := r, sib := sib, pos := s1.pulled, fin := s1.stopped, bad := 0 })
+  | .send =>
+    let (s1, r) := sendVal s
+    (s1, { op := .send, res := r, sib := none, pos := s1.pulled, fin := s1.stopped, bad := 0 })
   | op => observeBasic s op
 
 def run (s : St) : List Op → List Obs
@@ -396,9 +423,17 @@ def drainWatch (w : Watch) (k : Nat) : Watch × Item :=
   | .value v :: r => ({ w with rest := r, known := w.known.set k (.val (.val v)) }, .val v)
   | _ => ({ rest := [], fin := true, known := w.known.set k (.val .endMarker) }, .endMarker)
 
+/-- what the harness's counter `bad` says went wrong: units = awaits of the body resumed with something else than the
+    awaited result, hundreds = the arguments of the generator function did not arrive (`*args, **kwargs` of the wrapper),
+    ten-thousands = ANOTHER generator made by the same decorated function was disturbed -/
+def badClause (bad : Nat) : String :=
+  if bad % 100 != 0 then "await-result"
+  else if (bad / 100) % 100 != 0 then "generator-arguments"
+  else "other-generator-disturbed"
+
 /-- one observation of a basic operation against the reference; returns the clause that fails -/
 def watchBasic (total : Nat) (w : Watch) (ob : Obs) : Except String Watch :=
-  if ob.bad != 0 then .error "await-result" else
+  if ob.bad != 0 then .error (badClause ob.bad) else
   if ob.res.hasMarker then .error "end-marker" else
   match ob.op with
   | .next =>
@@ -462,6 +497,17 @@ def watchBasic (total : Nat) (w : Watch) (ob : Obs) : Except String Watch :=
       else if ob.pos != total || !ob.fin then .error "list-consumed"
       else .ok { w with rest := [], fin := true }
   | .par _ _ => .error "not-basic"
+  | .send => .error "not-basic"
+
+/-- an advance was refused: an exception other than StopIteration (which would say "exhausted") -/
+def Res.isRefusal : Res → Bool
+  | .raised .stopIteration => false
+  | .raised _ => true
+  | _ => false
+
+/-- the reference has delivered nothing yet, has not seen the end and no returned task is uncomputed: the underlying
+    generator has not been started -/
+def Watch.fresh (total : Nat) (w : Watch) : Bool := !w.blocked && !w.fin && w.rest.length == total
 
 /-- the sibling's advance, judged as the basic operation it is, with the position observed at the end -/
 def sibObs (ob : Obs) (a : Adv) (r2 : Res) : Obs :=
@@ -477,7 +523,7 @@ def refused (a : Adv) : Res :=
 def watchStep (total : Nat) (w : Watch) (ob : Obs) : Except String Watch :=
   match ob.op with
   | .par k a =>
-    if ob.bad != 0 then .error "await-result" else
+    if ob.bad != 0 then .error (badClause ob.bad) else
     match ob.sib with
     | none =>
       match w.known[k]? with
@@ -503,6 +549,19 @@ def watchStep (total : Nat) (w : Watch) (ob : Obs) : Except String Watch :=
           -- the task had started but was NOT computed when the sibling advanced: the guard must still hold
           if r2 == refused a && ob.pos + w1.rest.length == total && ob.fin == w1.fin then .ok w1
           else .error "guard-started"
+  | .send =>
+    -- `send(x)`, x not None: a generator that has not started refuses it (the code as it exists: CPython's TypeError;
+    -- the statement only needs: some exception other than StopIteration) and then NOTHING may have moved - the Values
+    -- are all still to be delivered; a send that is not refused must be a `next()`; any other generator treats it as
+    -- `next()`
+    if ob.sib.isSome then .error "sibling-unexpected"
+    else if w.fresh total then
+      if ob.bad != 0 then .error (badClause ob.bad)
+      else if ob.res.isRefusal && ob.pos + w.rest.length == total && ob.fin == w.fin then .ok w
+      else match watchBasic total w { ob with op := .next } with
+        | .ok w' => .ok w'
+        | .error _ => .error "send-rejected"
+    else watchBasic total w { ob with op := .next }
   | _ => if ob.sib.isSome then .error "sibling-unexpected" else watchBasic total w ob
 
 def watchRun (total : Nat) (w : Watch) : List Obs → Except String Watch
@@ -532,5 +591,76 @@ def outsideClause (obs : List Obs) : String :=
   else if obs.any (fun o => o.res.hasMarker || (match o.sib with | some (_, r) => r.hasMarker | none => false)) then
     "end-marker"
   else "ok"
+
+/-! ## Re-entrant advances: code that the BODY calls tries to advance the generator that is executing it
+
+  (`yield Value(lookahead())` where `lookahead` calls `next(gen)` / `take_first(gen, n)` / `list_of_generator(gen)` /
+  `gen.send(x)` on the running generator and catches the refusal.)  The model above has no state "the body is
+  executing", so this family is judged by the DIRECT EXPECTATION below (evaluated by the driver on the log the harness
+  records; NO theorem speaks about it):
+  * the code before the j-th item runs inside the `_send_inner` task iff item j-1 is an await (the task consumed it;
+    that task is `last_task` and not computed): `send` raises RuntimeError at generator.py:136-140 - the guard clause
+    of C17;
+  * otherwise it runs inside `send()` itself (first `_get_one_value`, generator.py:147): `last_task` is None or computed,
+    `is_stopped` is False, so `self.generator.send` is reached and CPython refuses it: ValueError (generator already
+    executing); `except StopIteration` does not match, nothing is marked stopped;
+  * `take_first(gen, 0)` returns `[]` without touching anything.
+  In every case nothing moves: the rest of the history is judged by `spec` as if the attempt had not happened. -/
+
+def prevIsAwait (b : Body) (j : Nat) : Bool :=
+  j != 0 && (match b[j - 1]? with | some (.await _) => true | _ => false)
+
+/-- what the re-entrant advance `a`, attempted by the code that runs before item `j` (`j = b.length`: after the last
+    item), must give -/
+def reenterExpected (b : Body) (j : Nat) (a : Op) : Res :=
+  match a with
+  | .take 0 => .lst []
+  | _ => if prevIsAwait b j then .raised .runtimeError else .raised .valueError
+
+/-- one entry of the log: position, the advance attempted, what it gave -/
+structure ReEvent where
+  j : Nat
+  a : Op
+  res : Res
+  deriving Repr, DecidableEq, Inhabited
+
+/-- the attempts that are due while the underlying generator of the body moves from `p` items yielded (`f`: run off its
+    end) to `p'` (`f'`) -/
+def reenterDue (b : Body) (annot : List (Nat × Op)) (p : Nat) (f : Bool) (p' : Nat) (f' : Bool) : List ReEvent :=
+  (annot.filter (fun x => (p ≤ x.1 && x.1 < p') || (x.1 == b.length && f' && !f))).map
+    (fun x => { j := x.1, a := x.2, res := reenterExpected b x.1 x.2 })
+
+def reenterClauseOf (e : ReEvent) : String :=
+  (match e.res with
+    | .raised .runtimeError => "reenter-guard"
+    | .raised .valueError => "reenter-rejected"
+    | _ => "reenter-take-zero") ++ "@" ++ e.a.name
+
+/-- what C17 itself demands of the attempt (`e` = what the code as it exists does, `g` = what was observed): the guard
+    clause (RuntimeError while the running task is not computed) and `take_first(gen, 0) = []` exactly; inside `send()`
+    the statement only demands that the advance is REFUSED - any exception but StopIteration (the generator is not
+    exhausted) - that it is CPython's ValueError is the code as it exists (correspondence), not the property -/
+def reenterAccepts (e g : ReEvent) : Bool :=
+  e.j == g.j && e.a == g.a &&
+  (match e.res with
+    | .raised .valueError => (match g.res with | .raised .stopIteration => false | .raised _ => true | _ => false)
+    | r => g.res == r)
+
+/-- compare the log of one operation with what is due; the clause that fails (`exact`: as the code does it) -/
+def reenterCheck (exact : Bool) : List ReEvent → List ReEvent → Option String
+  | [], [] => none
+  | e :: es, g :: gs =>
+    if (if exact then e == g else reenterAccepts e g) then reenterCheck exact es gs else some (reenterClauseOf e)
+  | e :: _, [] => some ("reenter-missing@" ++ e.a.name)
+  | [], g :: _ => some ("reenter-unexpected@" ++ g.a.name)
+
+/-- the whole history: per operation the base position after it and its log -/
+def reenterRun (exact : Bool) (b : Body) (annot : List (Nat × Op)) :
+    Nat → Bool → List (Nat × Bool × List ReEvent) → Option String
+  | _, _, [] => none
+  | p, f, (p', f', log) :: rest =>
+    match reenterCheck exact (reenterDue b annot p f p' f') log with
+    | some c => some c
+    | none => reenterRun exact b annot p' f' rest
 
 end AsynqModel.Generator
